@@ -96,7 +96,19 @@ func (jd *JarDigest) insertSignature(cert *x509.Certificate, alias string, sf, s
 	// Patch out old files
 	patch := binpatch.New()
 	patch.Add(0, 0, zipcon.Bytes())
+	// Members are re-indexed as one contiguous run starting at offset 0, so the
+	// input must be laid out that way; anything else (a launcher stub in front,
+	// data between members) cannot be rewritten safely and is refused.
+	var next int64
 	for _, f := range jd.inz.File {
+		size, err := f.GetTotalSize()
+		if err != nil {
+			return nil, err
+		}
+		if int64(f.Offset) != next {
+			return nil, errors.New("zip has data before or between its members, refusing to rewrite it")
+		}
+		next += size
 		if keepFile(f.Name) {
 			// Add existing file to the new zip directory. Its offset will be changed.
 			if _, err := outz.AddFile(f); err != nil {
@@ -104,10 +116,6 @@ func (jd *JarDigest) insertSignature(cert *x509.Certificate, alias string, sf, s
 			}
 		} else {
 			// remove this region from the old zip
-			size, err := f.GetTotalSize()
-			if err != nil {
-				return nil, err
-			}
 			if size > 0xffffffff {
 				return nil, errors.New("signature file too big")
 			}
@@ -118,7 +126,9 @@ func (jd *JarDigest) insertSignature(cert *x509.Certificate, alias string, sf, s
 	if err := outz.WriteDirectory(zipdir, zipdir, false); err != nil {
 		return nil, err
 	}
-	patch.Add(jd.inz.DirLoc, jd.inz.Size-jd.inz.DirLoc, zipdir.Bytes())
+	// replace everything after the last member, including any non-zip data in
+	// front of the old directory (e.g. a now stale APK signing block)
+	patch.Add(next, jd.inz.Size-next, zipdir.Bytes())
 	return patch, nil
 }
 
